@@ -37,16 +37,17 @@ type In struct {
 	Name       string       // label of the configuration
 	Model      gen.DebModel // what the bytes were built from
 	Exp        Expect
-	Layout     string `json:",omitempty"` // "" canonical | "data-before-control"
-	Extra      string `json:",omitempty"` // "" | "gpgorigin-end" | "underscore-end" | "underscore-after-binary" | "unrelated-first"
-	Drop       string `json:",omitempty"` // "" | "debian-binary" | "control" | "data"
-	Dup        string `json:",omitempty"` // "" | "control-end" | "control-adjacent" | "data-end" | "data-adjacent" | "both-end"
-	ExtraCount int    `json:",omitempty"` // this many further members _x001, _x002, ... at the end
-	SecondName string `json:",omitempty"` // a further member with this name (see secondMember) ...
-	SecondPos  int    `json:",omitempty"` // ... inserted at this position of the member list
-	Verdict    string // "must-load" | "must-reject" | "lenient" (may be rejected; if it loads it must be faithful) | "unconstrained" (only determinism)
-	Orders     bool   `json:",omitempty"` // run under ForEachMapOrder instead of two plain loads
-	Deb        []byte // the package, byte-exact (base64 in JSON)
+	Layout     string            `json:",omitempty"` // "" canonical | "data-before-control"
+	Extra      string            `json:",omitempty"` // "" | "gpgorigin-end" | "underscore-end" | "underscore-after-binary" | "unrelated-first"
+	Drop       string            `json:",omitempty"` // "" | "debian-binary" | "control" | "data"
+	Dup        string            `json:",omitempty"` // "" | "control-end" | "control-adjacent" | "data-end" | "data-adjacent" | "both-end"
+	ExtraCount int               `json:",omitempty"` // this many further members _x001, _x002, ... at the end
+	SecondName string            `json:",omitempty"` // a further member with this name (see secondMember) ...
+	SecondPos  int               `json:",omitempty"` // ... inserted at this position of the member list
+	WantStruct map[string]string `json:",omitempty"` // field-model inputs: canonical rendering of every deb.Control field (replaces Exp)
+	Verdict    string            // "must-load" | "must-reject" | "lenient" (may be rejected; if it loads it must be faithful) | "unconstrained" (only determinism)
+	Orders     bool              `json:",omitempty"` // run under ForEachMapOrder instead of two plain loads
+	Deb        []byte            // the package, byte-exact (base64 in JSON)
 }
 
 func features(in In) []string {
@@ -397,26 +398,12 @@ func compare(scen string, in In, o Obs) []*mc.Violation {
 func CompareContent(in In, o Obs) [][3]string {
 	var out [][3]string
 	// control fields
-	e := in.Exp
-	type pair struct{ name, got, want string }
-	ps := []pair{
-		{"Package", o.Package, e.Package}, {"Source", o.Source, e.Source}, {"Maintainer", o.Maintainer, e.Maintainer},
-		{"MultiArch", o.MultiArch, e.MultiArch}, {"Section", o.Section, e.Section}, {"Priority", o.Priority, e.Priority},
-		{"Homepage", o.Homepage, e.Homepage}, {"Description", o.Description, e.Description},
-		{"Version.Version", o.Upstream, e.Upstream}, {"Version.Revision", o.Revision, e.Revision},
-		{"Version.Epoch", fmt.Sprint(o.Epoch), fmt.Sprint(e.Epoch)},
-		{"Architecture", o.Arch, e.Arch}, {"Architecture.CPU", o.ArchCPU, e.Arch},
-		{"InstalledSize", fmt.Sprint(o.InstalledSize), fmt.Sprint(e.InstalledSize)},
-	}
-	for _, dn := range []string{"Depends", "Recommends", "Suggests", "Breaks", "Replaces", "BuiltUsing"} {
-		ps = append(ps, pair{dn, o.Deps[dn], e.Deps[dn]}, pair{dn + " names", fmt.Sprint(o.DepNames[dn]), fmt.Sprint(e.DepNames[dn])})
-	}
 	var diffs, wants []string
-	for _, p := range ps {
-		if !eqField(p.got, p.want) {
-			diffs = append(diffs, fmt.Sprintf("%s=%q", p.name, p.got))
-			wants = append(wants, fmt.Sprintf("%s=%q", p.name, p.want))
-		}
+	if in.WantStruct != nil {
+		wants, diffs = compareStruct(in, o)
+	} else {
+		w2, d2 := compareExpect(in, o)
+		wants, diffs = w2, d2
 	}
 	var wantOrder []string
 	for _, f := range in.Model.Fields {
@@ -438,6 +425,31 @@ func CompareContent(in In, o Obs) [][3]string {
 		out = append(out, [3]string{"data-stream-lists-packaged-files", describeFiles(in.Model.DataFiles), v})
 	}
 	return out
+}
+
+// compareExpect: the fixed typed fields against the hand-written Expect of a paragraph model.
+func compareExpect(in In, o Obs) (wants, diffs []string) {
+	e := in.Exp
+	type pair struct{ name, got, want string }
+	ps := []pair{
+		{"Package", o.Package, e.Package}, {"Source", o.Source, e.Source}, {"Maintainer", o.Maintainer, e.Maintainer},
+		{"MultiArch", o.MultiArch, e.MultiArch}, {"Section", o.Section, e.Section}, {"Priority", o.Priority, e.Priority},
+		{"Homepage", o.Homepage, e.Homepage}, {"Description", o.Description, e.Description},
+		{"Version.Version", o.Upstream, e.Upstream}, {"Version.Revision", o.Revision, e.Revision},
+		{"Version.Epoch", fmt.Sprint(o.Epoch), fmt.Sprint(e.Epoch)},
+		{"Architecture", o.Arch, e.Arch}, {"Architecture.CPU", o.ArchCPU, e.Arch},
+		{"InstalledSize", fmt.Sprint(o.InstalledSize), fmt.Sprint(e.InstalledSize)},
+	}
+	for _, dn := range []string{"Depends", "Recommends", "Suggests", "Breaks", "Replaces", "BuiltUsing"} {
+		ps = append(ps, pair{dn, o.Deps[dn], e.Deps[dn]}, pair{dn + " names", fmt.Sprint(o.DepNames[dn]), fmt.Sprint(e.DepNames[dn])})
+	}
+	for _, p := range ps {
+		if !eqField(p.got, p.want) {
+			diffs = append(diffs, fmt.Sprintf("%s=%q", p.name, p.got))
+			wants = append(wants, fmt.Sprintf("%s=%q", p.name, p.want))
+		}
+	}
+	return
 }
 
 func memberNames(ms []gen.ArMember) string {
